@@ -73,6 +73,8 @@ func linForm(v ssa.Value, sym ssa.Value) (lin, bool) {
 func runC03(p *core.Program, r *core.Report) {
 	c := rc{p, r}
 	noAnswerBeforeTheScan(c, "heap.FromSlice", "heap.Sort")
+	copiesWholeSlice(c, "heap.(*Heap).GetValues", "Heap", "data")
+	resultUntouchedAfterTheScan(c, "heap.FromSlice", "heap.Sort")
 	const H = "heap.(*Heap)."
 	fPush, fPop, fPeek, fDelete, fConvert, fMerge, fMeld, fSize, fEmpty, fClear := c.fn(H+"Push"), c.fn(H+"Pop"), c.fn(H+"Peek"), c.fn(H+"Delete"), c.fn(H+"Convert"), c.fn(H+"Merge"), c.fn(H+"Meld"), c.fn(H+"Size"), c.fn(H+"IsEmpty"), c.fn(H+"Clear")
 	fFromSlice, fSort, fNew := c.fn("heap.FromSlice"), c.fn("heap.Sort"), c.fn("heap.NewHeap")
